@@ -57,7 +57,7 @@ Inductive consumer_ok (q : nat) (th : thread) (pop : list Z) (closed : bool) (to
     recv (tres th) = pop -> ~ saw_closed (tres th) -> consumer_ok q th pop closed tok
 | CPop : tph th = PPop q -> tcalls th = [CRemoveHead q] -> tloop th = LConsumer q ->
     recv (tres th) = pop -> ~ saw_closed (tres th) -> consumer_ok q th pop closed tok
-| CFin : tph th = PIdle -> tcalls th = [] -> tloop th = LNone ->
+| CFin : tph th = PIdle -> tcalls th = [] -> tloop th = LNone -> saw_closed (tres th) ->
     recv (tres th) = pop -> closed = true -> tok = 0 -> consumer_ok q th pop closed tok.
 
 Lemma saw_closed_app a r : saw_closed (a ++ [r]) -> saw_closed a \/ exists v, r = RHead v false.
@@ -76,12 +76,13 @@ Lemma consumer_step q c t c' :
 Proof.
   intros s Hok Hq Hstep Hns. subst s. pose proof (step_some_lt _ _ _ Hstep) as Ht.
   unfold step in Hstep.
-  destruct Hok as [Hph Hc Hl Hr Hs|Hph Hc Hl Hr Hs|Hph Hc Hl Hr Hcl Htok]; rewrite Hph, Hc in Hstep.
+  destruct Hok as [Hph Hc Hl Hr Hs|Hph Hc Hl Hr Hs|Hph Hc Hl Hsaw Hr Hcl Htok]; rewrite Hph, Hc in Hstep.
   - destruct (0 <? qtok (getq c q)) eqn:Htok.
     + injection Hstep as <-. simpl. gs. simpl. apply CPop; auto.
     + destruct (qclosed (getq c q)) eqn:Hcl; [|discriminate]. injection Hstep as <-. simpl. gs.
       unfold finish_head. rewrite Hl. simpl.
       apply CFin; simpl; auto.
+      * exists 0%Z. apply in_or_app. simpl. auto.
       * rewrite recv_app. simpl. now rewrite app_nil_r.
       * apply Nat.ltb_ge in Htok. lia.
   - unfold pop_head in Hstep. destruct (qvals (getq c q)) as [|x vals] eqn:Hv.
@@ -98,7 +99,7 @@ Lemma consumer_ops q th pop closed tok k q' : consumer_ok q th pop closed tok ->
   opof th = Some (k, q') -> q' = q /\ (k = KTake \/ k = KPop).
 Proof.
   intros Hok. unfold opof.
-  destruct Hok as [Hph Hc Hl Hr Hs|Hph Hc Hl Hr Hs|Hph Hc Hl Hr Hcl Htok]; rewrite Hph, ?Hc.
+  destruct Hok as [Hph Hc Hl Hr Hs|Hph Hc Hl Hr Hs|Hph Hc Hl Hsaw Hr Hcl Htok]; rewrite Hph, ?Hc.
   - intros E; injection E as <- <-; auto.
   - intros E; injection E as <- <-; auto.
   - discriminate.
@@ -110,7 +111,7 @@ Lemma consumer_frame q th pop closed tok pop' closed' tok' :
   consumer_ok q th pop' closed' tok'.
 Proof.
   intros Hok -> H.
-  destruct Hok as [Hph Hc Hl Hr Hs|Hph Hc Hl Hr Hs|Hph Hc Hl Hr Hcl Htok].
+  destruct Hok as [Hph Hc Hl Hr Hs|Hph Hc Hl Hr Hs|Hph Hc Hl Hsaw Hr Hcl Htok].
   - now apply CIdle.
   - now apply CPop.
   - destruct (H Hcl) as [-> ->]. now apply CFin.
